@@ -2862,7 +2862,9 @@ impl Context {
                 (
                     Arc::new(Value::State(retv)),
                     ty,
-                    [states, vec![skeleton]].concat(),
+                    // the feed cell occupies the first words of the function's state (GetState
+                    // above reads at the current position, the body's cells follow it)
+                    [vec![skeleton], states].concat(),
                 )
             }
             Expr::Let(pat, body, then) => {
